@@ -424,6 +424,9 @@ class FoldReducer(RecordReducer, ABC):
 
             if self.data_.ignored:
                 self.data_.initialize(res.shape, fill=self.__fill)
+            else:
+                # a cleared record kept its shape; slots added by a resize since are zero, not fill
+                self.data_.reset(self.__fill)
 
             self.push(res)
             self._initial = False
